@@ -71,6 +71,7 @@ FIXED = [
  ('F1', ['C02', 'C03'], 'euclidean C kernels squared max_dist/max_step/penalty', 'fix: the euclidean-inner-distance C kernels squared'),
  ('F4/F5', ['C03', 'C09'], 'dtw_warping_paths_ndim_euclidean used the squared-variant bound and rooted only_ub', 'fix: dtw_warping_paths_ndim_euclidean pruned'),
  ('F36', ['C02', 'C10'], 'psi_1e candidate read through stale curidx', 'fix: C dtw_distance read the psi_1e candidate'),
+ ('F53', ['C03'], "early abandoning skipped the free starts of psi-relaxation in all kernels (ec started at 0, stale sc on rows i <= psi_1b): psi=(2,0,1,0) with max_dist 20% above the distance returned inf for 449 of 5300 random pairs, use_pruning a larger value for 33", 'fix: early abandoning (max_dist / use_pruning) skipped the free starts'),
  ('F16', ['C18'], "dtw_wps_positivize was not the inverse of dtw_wps_negativize: negativize(2,6,2,6,True) then positivize left 11 cells negative", 'fix: dtw_wps_positivize was not the inverse'),
  ('F51', ['C18'], "non-compact LocalConcurrences reset left consumed (negated) cells negative: kbest_matches(restart=True) after a first search returned other matches", 'fix: LocalConcurrences reset did not restore'),
  ('F52', ['C18'], "kbest_matches(buffer>0) flipped signs over overlapping windows: cells of a match became positive again and were reused (e.g. seed-10 instance in DESIGN.md)", 'fix: a positive buffer in LocalConcurrences.kbest_matches'),
